@@ -344,6 +344,15 @@ Definition get_message_code : list dstmt :=
 (* driver/netconf/rpc.go Driver.sendRPC (the polling goroutine as one effect) *)
 Definition send_rpc_code : list dstmt :=
   [DIf (DAtom "d.ForceSelfClosingTags") [] []; DCall "m.serialize(d.SelectedVersion, d.ForceSelfClosingTags, d.ExcludeHeader)"; DIf (DNot (DEq "err" "nil")) [DReturn "nil, err"] []; DAssign "r" "response.NewNetconfResponse( serialized.rawXML, serialized.framedXML, d.Transport.GetHost(), d.Transport.GetPort(), d.SelectedVersion, )"; DAssign "err" "d.Channel.WriteAndReturn(serialized.framedXML, false)"; DIf (DNot (DEq "err" "nil")) [DReturn "nil, err"] []; DIf (DEq "d.SelectedVersion" "V1Dot1") [DAssign "err" "d.Channel.WriteReturn()"; DIf (DNot (DEq "err" "nil")) [DReturn "nil, err"] []] []; DAssign "done" "make(chan []byte)"; DCall "context.WithCancel(context.Background()) -> ctx, cancel"; DCall "defer cancel()"; DCall "go func() { defer close(done) var data []byte for { if ctx.Err() != nil { return } data = d.getMessage(m.MessageID) if data != nil { break } time.Sleep(5 * time.Microsecond) } select { case done <- data: case <-ctx.Done(): } }()"; DAssign "timer" "time.NewTimer(d.Channel.GetTimeout(op.Timeout))"; DSwitch "select" [(["err = <-d.errs"], [DReturn "nil, err"]); (["<-timer.C"], [DReturn "nil, fmt.Errorf(""%w: channel timeout sending input to device"", util.ErrTimeoutError)"]); (["data := <-done"], [DCall "r.Record(data)"])]; DReturn "r, nil"].
+(* driver/netconf: buildFilterElem, buildDefaultsElem, buildGetElem, buildGetConfigElem *)
+Definition nc_filter_elem_code : list dstmt :=
+  [DIf (DOr (DEq "filter" """""") (DEq "filterType" """""")) [DReturn "nil, nil"] []; DSwitch "filterType" [(["FilterSubtree"], [DAssign "f" "&filterT{ XMLName: xml.Name{}, Type: filterType, Select: """", Payload: filter, }"]); (["FilterXpath"], [DAssign "f" "&filterT{ XMLName: xml.Name{}, Type: filterType, Select: filter, }"]); ([], [DAssign "err" "fmt.Errorf(""%w: unknown filter type '%s'"", util.ErrNetconfError, filterType)"])]; DReturn "f, err"].
+Definition nc_defaults_elem_code : list dstmt :=
+  [DIf (DEq "defaultsType" """""") [DReturn "nil, nil"] []; DSwitch "defaultsType" [(["reportAll"; "reportAllTagged"; "trim"; "explicit"], []); ([], [DReturn "nil, fmt.Errorf(""%w: unknown default type '%s'"", util.ErrNetconfError, defaultsType)"])]; DReturn "&defaultType{ XMLName: xml.Name{}, Namespace: defaultNamespace, Type: defaultsType, }, nil"].
+Definition nc_get_elem_code : list dstmt :=
+  [DCall "d.buildFilterElem(filter, filterType)"; DIf (DNot (DEq "err" "nil")) [DReturn "nil, err"] []; DAssign "getElem" "&get{ XMLName: xml.Name{}, Filter: filterElem, }"; DAssign "netconfInput" "d.buildPayload(getElem)"; DReturn "netconfInput, nil"].
+Definition nc_get_config_elem_code : list dstmt :=
+  [DCall "d.buildFilterElem(filter, filterType)"; DIf (DNot (DEq "err" "nil")) [DReturn "nil, err"] []; DCall "d.buildDefaultsElem(defaultType)"; DIf (DNot (DEq "err" "nil")) [DReturn "nil, err"] []; DAssign "getConfigElem" "&getConfig{ XMLName: xml.Name{}, Source: d.buildSourceElem(source), Filter: filterElem, Defaults: defaultsElem, }"; DAssign "netconfInput" "d.buildPayload(getConfigElem)"; DReturn "netconfInput, nil"].
 (* driver/network/privilege.go Driver.buildPrivGraph, buildJoinedPromptPattern, UpdatePrivileges *)
 Definition build_priv_graph_code : list dstmt :=
   [DAssign "d.privGraph" "map[string]map[string]bool{}"; DRange "privLevel" "d.PrivilegeLevels" [DAssign "privLevel.patternRe" "regexp.MustCompile(privLevel.Pattern)"; DAssign "d.privGraph[privLevel.Name]" "map[string]bool{}"; DIf (DNot (DEq "privLevel.PreviousPriv" """""")) [DAssign "d.privGraph[privLevel.Name][privLevel.PreviousPriv]" "true"] []]; DRange "privLevelList" "d.privGraph" [DAssign "higherPrivLevel" "index of privLevelList"; DRange "privLevel" "keys of privLevelList" [DAssign "d.privGraph[privLevel][higherPrivLevel]" "true"]]].
